@@ -16,6 +16,9 @@ use std::sync::{Arc, Mutex};
 pub struct Uow {
     a: u64,
     b: u64,
+    /// interior-mutable field: handle clones keep adding to it after the owner is gone; the entry
+    /// must carry its value at the instant it is closed and appended
+    c: metrique::Counter,
 }
 
 /// what the sink saw: the entry's fields and the started-flags snapshot at the append instant
@@ -91,6 +94,8 @@ pub enum Op {
     CloneHandle,
     DropHandle(u8),
     DropOwner,
+    /// add to the Counter field through the i-th handle clone (`&self` access)
+    AddViaHandle(u8, u8),
 }
 
 /// reference model of the keep-alive protocol
@@ -104,6 +109,7 @@ pub struct Model {
     pub force_dropped: bool,
     pub a: u64,
     pub b: u64,
+    pub c: u64,
 }
 impl Model {
     pub fn new() -> Self {
@@ -122,6 +128,7 @@ impl Model {
             Op::DropForceGuard(i) => (i as usize) < self.force_guards,
             Op::CloneHandle => self.handles > 0,
             Op::DropHandle(i) => (i as usize) < self.handles,
+            Op::AddViaHandle(i, _) => (i as usize) < self.handles,
         }
     }
     pub fn apply(&mut self, op: Op) {
@@ -146,6 +153,7 @@ impl Model {
             Op::CloneHandle => self.handles += 1,
             Op::DropHandle(_) => self.handles -= 1,
             Op::DropOwner => self.owner_alive = false,
+            Op::AddViaHandle(_, k) => self.c += k as u64,
         }
     }
 }
@@ -160,7 +168,7 @@ pub struct Real {
 impl Real {
     pub fn new() -> Self {
         let sink = CountSink::new();
-        let owner = Uow { a: 0, b: 0 }.append_on_drop(sink.clone());
+        let owner = Uow { a: 0, b: 0, c: metrique::Counter::new(0) }.append_on_drop(sink.clone());
         Real {
             sink,
             owner: Some(owner),
@@ -190,6 +198,7 @@ impl Real {
             }
             Op::DropHandle(i) => drop(self.handles.remove(i as usize)),
             Op::DropOwner => drop(self.owner.take()),
+            Op::AddViaHandle(i, k) => self.handles[i as usize].c.add(k as u64),
         }
     }
 }
@@ -209,6 +218,7 @@ pub fn run_sequence(ops: &[Op]) -> Result<(Model, Real, Classes), Fail> {
             Op::DropForceGuard(_) if m.flush_guards.iter().any(|h| *h) => classes.push("force-drop-while-flush-guards-alive"),
             Op::NewFlushGuard if m.force_dropped => classes.push("guard-created-after-force-drop"),
             Op::DropOwner | Op::IntoHandle if !m.flush_guards.is_empty() => classes.push("guard-outlives-owner"),
+            Op::AddViaHandle(..) => classes.push("mutation-through-handle-after-owner-gone"),
             _ => {}
         }
         m.apply(*op);
@@ -236,11 +246,12 @@ pub fn run_sequence(ops: &[Op]) -> Result<(Model, Real, Classes), Fail> {
             let mut f = a.fields.clone();
             f.sort();
             vensure!(
-                f == vec![("a".to_string(), m.a), ("b".to_string(), m.b)],
+                f == vec![("a".to_string(), m.a), ("b".to_string(), m.b), ("c".to_string(), m.c)],
                 "uow:content-does-not-reflect-mutations",
-                "appended entry has fields {f:?}, the owner's mutations sum to a={}, b={}",
+                "appended entry has fields {f:?}, the mutations up to the append instant sum to a={}, b={}, c={} (c is added to through handle clones)",
                 m.a,
-                m.b
+                m.b,
+                m.c
             );
         }
     }
@@ -374,7 +385,7 @@ pub fn check_seq(case: &SeqCase) -> CaseResult {
     let mut f = appended[0].fields.clone();
     f.sort();
     vensure!(
-        f == vec![("a".to_string(), m.a), ("b".to_string(), m.b)],
+        f == vec![("a".to_string(), m.a), ("b".to_string(), m.b), ("c".to_string(), m.c)],
         "uow:content-does-not-reflect-mutations",
         "appended entry has fields {f:?}, expected a={}, b={}",
         m.a,
@@ -529,6 +540,9 @@ pub fn arb_op() -> impl Strategy<Value = Op> {
         2 => Just(Op::CloneHandle),
         2 => (0u8..4).prop_map(Op::DropHandle),
         1 => Just(Op::DropOwner),
+        2 => (0u8..4, 1u8..50).prop_map(|(i, k)| Op::AddViaHandle(i, k)),
+        // guards of any age, not only the oldest ones
+        1 => (0u8..40).prop_map(Op::DropFlushGuard),
     ]
 }
 
@@ -545,7 +559,7 @@ pub fn run(ctx: &mut Ctx) {
             if q { 30_000 } else { 1_000_000 },
         )
         .threads(ctx.tier.pick(8, 16))
-        .mandatory(&["force-drop-while-flush-guards-alive", "guard-created-after-force-drop", "guard-outlives-owner", "final-drops-while-unwinding"]),
+        .mandatory(&["force-drop-while-flush-guards-alive", "guard-created-after-force-drop", "guard-outlives-owner", "final-drops-while-unwinding", "mutation-through-handle-after-owner-gone"]),
         || {
             (prop::collection::vec(arb_op(), 0..60), prop::collection::vec(any::<u8>(), 0..12), prop::bool::weighted(0.2)).prop_map(|(ops, order, unwinding)| SeqCase {
                 ops,
@@ -575,7 +589,10 @@ pub fn run(ctx: &mut Ctx) {
             )
                 .prop_map(|(mut ops, threads, order, jitter)| {
                     // keep something alive for the threads to drop
-                    ops.retain(|o| !matches!(o, Op::DropOwner | Op::DropForceGuard(_)));
+                    // keep something alive for the threads to drop (a force-guard drop in the prefix is kept in
+                    // every third case: guards created after it do not hold the entry)
+                    let keep_force_drop = threads % 3 == 0;
+                    ops.retain(|o| !matches!(o, Op::DropOwner) && (keep_force_drop || !matches!(o, Op::DropForceGuard(_))));
                     SeqCase {
                         ops,
                         threads,
